@@ -102,48 +102,92 @@ Proof.
   assert (N : g <> []) by (rewrite E; discriminate). pose proof (round_shrinks g W N) as S. specialize (IH (round g) (round_wf g W)). lia.
 Qed.
 (* every member is either exited in this pass or stays for the next one *)
-Lemma member_exits_or_stays : forall g x, In x g -> In (gid x) (map gid (exiting g)) \/ In x (round g).
+Lemma member_exits_or_stays : forall c s x, In x (members s) -> In (gid x) (map gid (exiting c s)) \/ In x (staying c s).
 Proof.
-  intros g x I. destruct (is_via g (gid x)) eqn:V.
-  - right. unfold round. apply filter_In. auto.
+  intros c s x I. destruct (is_via (via_pool c s) (gid x)) eqn:V.
+  - right. unfold staying. apply filter_In. auto.
   - left. apply in_map. unfold exiting. apply filter_In. rewrite V. auto.
 Qed.
+Lemma staying_sub : forall c s x, In x (staying c s) -> In x (members s).
+Proof. intros c s x I. unfold staying in I. apply filter_In in I. tauto. Qed.
+Lemma staying_wf : forall c s, wf_forest (members s) -> wf_forest (staying c s).
+Proof.
+  intros c s [ND W]. unfold staying. split.
+  - assert (G : forall (f : gwnode -> bool) l, NoDup (map gid l) -> NoDup (map gid (filter f l))).
+    { intros f l; induction l as [|b l' IHl]; intros H; cbn; [constructor|]. inversion H as [|? ? NI' ND'']; subst. destruct (f b); cbn; auto.
+      constructor; auto. intro X. apply NI'. apply in_map_iff in X. destruct X as [y [E Iy]]. apply filter_In in Iy. rewrite <- E. apply in_map. tauto. }
+    apply G. exact ND.
+  - intros x I j V. apply filter_In in I. apply (W x (proj1 I) j V).
+Qed.
+Lemma staying_length_le : forall c s, length (staying c s) <= length (members s).
+Proof. intros. unfold staying. apply filter_length_le'. Qed.
+(* with nothing left to join the pass is the plain round: it removes a gateway *)
+Lemma staying_shrinks : forall c s, wf_forest (members s) -> members s <> [] -> tojoin s = [] -> length (staying c s) < length (members s).
+Proof.
+  intros c s W N T. assert (P : via_pool c s = members s) by (unfold via_pool; rewrite T, app_nil_r; destruct (vias_count_tojoin c); reflexivity).
+  unfold staying. rewrite P. exact (round_shrinks (members s) W N).
+Qed.
+
+Definition tmeasure (s : gstate) : nat := 2 * length (members s) + match tojoin s with [] => 0 | _ => 1 end.
 
 (* Group.terminate with the loop running while members OR exited-but-unjoined gateways remain: afterwards the group is empty,
    nothing is left to join, and every gateway that was a member or had been exit()ed before went through safe_terminate *)
-Theorem terminate_joins_everything : forall fuel s, wf_forest (members s) -> length (members s) + 1 < fuel ->
-  let s' := terminate_loop true fuel s in
+Theorem terminate_joins_everything : forall c, joins_pending c = true -> forall fuel s, wf_forest (members s) -> tmeasure s < fuel ->
+  let s' := terminate_loop c fuel s in
   members s' = [] /\ tojoin s' = [] /\
-  (forall i, In i (joined s) \/ In i (tojoin s) \/ In i (map gid (members s)) -> In i (joined s')).
+  (forall i, In i (joined s) \/ In i (map gid (tojoin s)) \/ In i (map gid (members s)) -> In i (joined s')).
 Proof.
-  induction fuel as [|f IH]; intros s W L; [lia|]. cbn [terminate_loop].
+  intros c J. induction fuel as [|f IH]; intros s W L; [lia|]. cbn [terminate_loop]. rewrite J.
+  assert (Step : (members s <> [] \/ tojoin s <> []) ->
+     let s' := terminate_loop c f (tpass c s) in
+     members s' = [] /\ tojoin s' = [] /\ (forall i, In i (joined s) \/ In i (map gid (tojoin s)) \/ In i (map gid (members s)) -> In i (joined s'))).
+  { intros NE.
+    assert (L1 : tmeasure (tpass c s) < f).
+    { unfold tmeasure in *. cbn [tpass members tojoin]. pose proof (staying_length_le c s). destruct (tojoin s) as [|j js] eqn:T.
+      - destruct NE as [NE|NE]; [|congruence]. pose proof (staying_shrinks c s W NE T). lia.
+      - lia. }
+    specialize (IH (tpass c s) (staying_wf c s W) L1). cbn zeta in IH. destruct IH as [A [B Cj]].
+    repeat split; auto. intros i H. apply Cj. cbn [tpass joined members tojoin].
+    destruct H as [H|[H|H]].
+    - left. apply in_or_app. auto.
+    - left. apply in_or_app. right. apply in_or_app. auto.
+    - apply in_map_iff in H. destruct H as [x [E Ix]]. subst i. destruct (member_exits_or_stays c s x Ix) as [Q|Q].
+      + left. apply in_or_app. right. apply in_or_app. auto.
+      + right. right. apply in_map. exact Q. }
   destruct (members s) as [|a r] eqn:M.
   - destruct (tojoin s) as [|j js] eqn:T.
     + cbn. repeat split; auto. intros i [H|[H|H]]; [exact H|destruct H|destruct H].
-    + (* only exited gateways are left: one more pass joins them *)
-      assert (W1 : wf_forest (members (tpass s))) by (cbn [tpass members]; rewrite M; cbn; split; [constructor|intros x []]).
-      destruct f as [|f']; [cbn in L; lia|].
-      assert (E : terminate_loop true (S f') (tpass s) = tpass s) by (cbn [terminate_loop tpass members tojoin]; rewrite M; reflexivity).
-      rewrite E. cbn [tpass members tojoin joined]. rewrite M. cbn. repeat split; auto.
-      rewrite ?T. intros i [H|[H|[]]]; apply in_or_app; [left; exact H|right; apply in_or_app; left; exact H].
-  - assert (N : members s <> []) by (rewrite M; discriminate). rewrite <- M in *.
-    pose proof (round_shrinks (members s) W N) as Sh.
-    assert (L1 : length (members (tpass s)) + 1 < f) by (cbn [tpass members]; lia).
-    specialize (IH (tpass s) (round_wf _ W) L1). cbn zeta in IH. destruct IH as [A [B Cj]].
-    assert (X : terminate_loop true f (tpass s) = match tojoin s with [] => terminate_loop true f (tpass s) | _ => terminate_loop true f (tpass s) end) by (destruct (tojoin s); reflexivity).
-    replace (match (if true then tojoin s else []) with [] => terminate_loop true f (tpass s) | _ :: _ => terminate_loop true f (tpass s) end) with (terminate_loop true f (tpass s)) by (cbn; destruct (tojoin s); reflexivity).
-    repeat split; auto. intros i H. apply Cj. cbn [tpass joined members].
-    destruct H as [H|[H|H]].
-    + left. apply in_or_app. auto.
-    + left. apply in_or_app. right. apply in_or_app. auto.
-    + apply in_map_iff in H. destruct H as [x [E Ix]]. subst i. destruct (member_exits_or_stays _ x Ix) as [Q|Q].
-      * left. apply in_or_app. right. apply in_or_app. auto.
-      * right. right. apply in_map. exact Q.
+    + apply Step. right. discriminate.
+  - replace (match tojoin s with [] => terminate_loop c f (tpass c s) | _ :: _ => terminate_loop c f (tpass c s) end) with (terminate_loop c f (tpass c s)) by (destruct (tojoin s); reflexivity).
+    apply Step. left. discriminate.
+Qed.
+
+(* no gateway is exited in a pass in which a gateway routed through it is still to be joined (or is itself exited and joined in
+   that pass): the join / wait / kill of a proxied gateway travel through a live via gateway *)
+Theorem joined_through_live_via : forall c s x y, vias_count_tojoin c = true ->
+  In x (exiting c s) -> In y (tojoin s ++ exiting c s) -> via y <> Some (gid x).
+Proof.
+  intros c s x y V Ix Iy E. unfold exiting in Ix. apply filter_In in Ix. destruct Ix as [_ Nv]. apply negb_true_iff in Nv.
+  assert (Hv : is_via (via_pool c s) (gid x) = true).
+  { unfold is_via. apply existsb_exists. exists y. split.
+    - unfold via_pool. rewrite V. apply in_app_or in Iy. apply in_or_app. destruct Iy as [Iy|Iy]; [right; exact Iy|left].
+      unfold exiting in Iy. apply filter_In in Iy. tauto.
+    - rewrite E. apply Nat.eqb_refl. }
+  congruence.
 Qed.
 
 (* the loop `while self:` alone forgets gateways that were exit()ed before terminate() was called *)
-Lemma terminate_forgets_exited_refuted : exists s, members s = [] /\ tojoin (terminate_loop false 5 s) <> [] /\ joined (terminate_loop false 5 s) = [].
-Proof. exists {| members := []; tojoin := [7]; joined := [] |}. cbn. repeat split; discriminate. Qed.
+Lemma terminate_forgets_exited_refuted : exists s, members s = [] /\
+  tojoin (terminate_loop {| joins_pending := false; vias_count_tojoin := true |} 5 s) <> [] /\
+  joined (terminate_loop {| joins_pending := false; vias_count_tojoin := true |} 5 s) = [].
+Proof. exists {| members := []; tojoin := [{| gid := 7; via := None |}]; joined := [] |}. cbn. repeat split; discriminate. Qed.
+(* counting only members as users of a via gateway exits the via in the very pass that has to join an exited gateway through it *)
+Lemma via_exited_too_early_refuted : exists s x y, wf_forest (members s) /\
+  In x (exiting {| joins_pending := true; vias_count_tojoin := false |} s) /\ In y (tojoin s) /\ via y = Some (gid x).
+Proof.
+  exists {| members := [{| gid := 1; via := None |}]; tojoin := [{| gid := 2; via := Some 1 |}]; joined := [] |}, {| gid := 1; via := None |}, {| gid := 2; via := Some 1 |}.
+  cbn. repeat split; auto. constructor; [intros []|constructor]. intros x [<-|[]] j; discriminate.
+Qed.
 
 Fixpoint iter_round (n : nat) (g : list gwnode) : list gwnode := match n with O => g | S m => iter_round m (round g) end.
 Theorem group_empty_after : forall g, wf_forest g -> iter_round (length g) g = [].
